@@ -1,4 +1,4 @@
-import LimnoriaModel.C16.Model
+import LimnoriaModel.C16.Storable
 import LimnoriaModel.Driver.Core
 namespace C16
 open Py Wire
@@ -128,6 +128,10 @@ def step (s : DState) : List String → DState × String
   | ["u_dump", us] =>
     match decUsers us with
     | some us => (s, enc (dumpUsers { users := us }))
+    | none => (s, "bad-op")
+  | ["u_storable", us] =>
+    match decUsers us with
+    | some us => (s, encB (storableUsers (env) (sortedUsers { users := us })))
     | none => (s, "bad-op")
   | ["u_load", t] =>
     match dec t with
